@@ -39,6 +39,8 @@ impl<'a, A: ToSocketAddrs> UdpSendTo<'a, A> {
 
             // clear the io_flag
             self.io_data.io_flag.store(0, Ordering::Relaxed);
+            #[cfg(may_verif)]
+            crate::verif::syscall();
 
             match self.socket.send_to(self.buf, &self.addr) {
                 Ok(n) => return Ok(n),
